@@ -50,6 +50,13 @@ class Sym:
                 e = ("variant", e, el["variant"])
             elif "index" in el:
                 e = ("index", e)
+            elif "cindex" in el:
+                # slice pattern element `[first, ..]` / `[.., last]`
+                e = ("index", e, ("-%d" % el["cindex"]) if el.get("from_end") else str(el["cindex"]))
+            elif "subslice" in el:
+                # slice pattern rest `[_, rest @ ..]`
+                a, z = el["subslice"]
+                e = ("index", e, "%d..%s" % (a, ("-%d" % z if z else "") if el.get("from_end") else str(z)))
             else:
                 e = ("index", e)
         return e
@@ -97,6 +104,18 @@ class Sym:
                 r = ("call", c["path"], tuple(self.op(a, depth + 1) for a in t["args"]), d[1])
         self._memo[l] = r
         return r
+
+    def switch_on(self, bb):
+        """the value a switch terminator tests, with compiler temporaries resolved by reaching definitions at the switch"""
+        c = self.__dict__.setdefault("_switch_on", {})
+        if bb not in c:
+            c[bb] = SymAt(self, bb, len(self.body.blocks[bb]["stmts"]), named=False).op(self.body.term(bb)["on"])
+        return c[bb]
+
+    def at(self, bb, idx=None):
+        """A view that resolves multiply-defined locals by reaching definitions at program point (bb, idx): when exactly one
+        definition reaches the point, the local stands for that definition (evaluated at its own point)."""
+        return SymAt(self, bb, len(self.body.blocks[bb]["stmts"]) if idx is None else idx)
 
     def _has_partial_writes(self, l):
         pw = getattr(self, "_pw", None)
@@ -163,7 +182,7 @@ def render(e):
     if k == "variant":
         return "(%s as %s)" % (render(e[1]), e[2])
     if k == "index":
-        return render(e[1]) + "[]"
+        return render(e[1]) + "[%s]" % (e[2] if len(e) > 2 else "")
     if k == "call":
         return "%s(%s)" % (short(e[1]), ", ".join(render(a) for a in e[2]))
     if k == "bin":
@@ -251,3 +270,93 @@ def eval_const(e):
         if e[1] in ("Mul", "MulWithOverflow"):
             return a * b
     return None
+
+
+class SymAt(Sym):
+    def __init__(self, base, bb, idx, choice=None, named=True):
+        Sym.__init__(self, base.body, base.casts, base.max_depth)
+        self.named = named                   # False: source-level variables stay symbolic roots, only compiler temporaries are resolved
+        self.transparent = base.transparent
+        self.ctx = (bb, idx)
+        self.choice = dict(choice or {})     # multiply-reaching local -> the definition point assumed for it
+        self.ambiguous = {}                  # multiply-reaching locals met while evaluating -> their definition points
+        self._memo_at = {}
+
+    def local(self, l, depth=0):
+        b = self.body
+        key = (l, self.ctx)
+        if key in self._memo_at:
+            return self._memo_at[key]
+        name = b.debug_name(l)
+        if depth > self.max_depth or self._has_partial_writes(l):
+            return ("local", l, name)
+        if not self.named and name is not None and len(b.defs_of(l)) != 1 and not getattr(b, "changed", False):
+            return Sym.local(self, l, depth)
+        pts = b.reaching_at(l, self.ctx[0], self.ctx[1])
+        if len(pts) != 1:
+            if l in self.choice and self.choice[l] in pts:
+                pts = [self.choice[l]]
+            else:
+                if len(pts) > 1:
+                    self.ambiguous.setdefault(l, sorted(pts))
+                r = ("arg", l, name) if (1 <= l <= b.argc and len(b.defs_of(l)) == 1) else ("local", l, name)
+                self._memo_at[key] = r
+                return r
+        pt = sorted(pts)[0]
+        if pt[0] == -1:
+            r = ("arg", l, name)
+            self._memo_at[key] = r
+            return r
+        self._memo_at[key] = ("local", l, name)     # cycle guard
+        saved = self.ctx
+        self.ctx = pt
+        try:
+            blk = b.blocks[pt[0]]
+            if pt[1] < len(blk["stmts"]):
+                r = self.rvalue(blk["stmts"][pt[1]]["rv"], depth + 1)
+            else:
+                t = blk["term"]
+                c = t["callee"]
+                if t["args"] and callee_matches(c, *self.transparent):
+                    r = self.op(t["args"][0], depth + 1)
+                else:
+                    r = ("call", c["path"], tuple(self.op(a, depth + 1) for a in t["args"]), pt[0])
+        finally:
+            self.ctx = saved
+        self._memo_at[key] = r
+        return r
+
+
+def switch_alternatives(sym, bb, limit=12):
+    """The values a switch may be testing, one per combination of reaching definitions of the multiply-defined locals its
+    operand depends on (a test placed after the join of several specialised paths); [context-free value] when unambiguous."""
+    cache = sym.__dict__.setdefault("_switch_alts", {})
+    if bb not in cache:
+        t = sym.body.term(bb)
+        rows = split_rows(sym, bb, len(sym.body.blocks[bb]["stmts"]), {"use": t["on"]}, limit)
+        cache[bb] = [v for _, v in rows] if rows else [sym.op(t["on"])]
+    return cache[bb]
+
+
+def split_rows(sym, bb, idx, rv, limit=24):
+    """Evaluate rvalue `rv` at (bb, idx) once per combination of reaching definitions of the multiply-defined locals it
+    depends on: [(choice {local: definition point}, value)].  A choice's definition lies on the path taken, so whatever
+    dominates that definition holds on the row's path as well."""
+    out = []
+    work = [{}]
+    while work and len(out) + len(work) <= limit:
+        ch = work.pop()
+        v = SymAt(sym, bb, idx, ch)
+        val = v.rvalue(rv)
+        amb = {l: pts for l, pts in v.ambiguous.items() if l not in ch}
+        if not amb:
+            out.append((ch, val))
+            continue
+        l = sorted(amb)[0]
+        for pt in amb[l]:
+            c2 = dict(ch)
+            c2[l] = pt
+            work.append(c2)
+    if work:
+        return None
+    return out
